@@ -32,7 +32,7 @@ class Job:
     """One solver obligation = one Kani proof harness."""
 
     def __init__(self, name, code, desc, timeout=600, allow=(), kf=None,
-                 kani_args=(), mem_gb=12, group=None, unwind=None, expect_covers=True,
+                 kani_args=(), mem_gb=24, group=None, unwind=None, expect_covers=True,
                  inst=None, bounds=None, expect_fail=()):
         self.name = name          # harness fn name (unique in crate)
         self.code = code          # Rust source emitted into gen file
